@@ -727,6 +727,34 @@ theorem T_C18_clear_view_right_handed (Q : Hex)
   · exact Or.inl (fun i hi => by rw [tp_congr hq i hi]; exact h i hi)
   · exact Or.inr (fun i hi => by rw [tp_congr hq i hi]; exact h i hi)
 
+/-- **Planar sides: clear view ⇒ `Canonical`.**  For a right-handed block whose sides are planar (one half of every side
+    has a normal that is a positive multiple of the side's area vector — then so has the other) the statement about the
+    hull triangles and the statement of the specification about the side area vectors coincide: in a clear view
+    `reorient` returns `Q` itself and `Q` is `Canonical` (front side best aligned with the observer, top side best
+    aligned with the corrected ceiling direction among the four around, eight positive triple products) — hence, by
+    `T_C18_unique`, the only canonical one of the 48 numberings of the block. -/
+theorem T_C18_clear_view_canonical (Q : Hex) (hs : Sep Q) (pts : List V3) (hp : pts.Perm Q.toList)
+    (sim : List ITri) (obs ceil : V3) (f1 f2 b1 b2 t1 t2 o1 o2 l1 l2 r1 r2 : ITri)
+    (hcut : sidesCut f1 f2 b1 b2 t1 t2 o1 o2 l1 l2 r1 r2 = true)
+    (htris : (orientedTris pts sim).Perm ([f1, f2, b1, b2, t1, t2, o1, o2, l1, l2, r1, r2].map (triP Q)))
+    (hview : ¬ ((dirsOf Q.center obs ceil).o = V3.zero ∨ (dirsOf Q.center obs ceil).t = V3.zero))
+    (hv : ClearView (dirsOf Q.center obs ceil) (triP Q f1) (triP Q f2) (triP Q b1) (triP Q b2) (triP Q t1) (triP Q t2) (triP Q o1) (triP Q o2) (triP Q l1) (triP Q l2) (triP Q r1) (triP Q r2))
+    (hF : PlanarHalf Q 4 (triP Q f1)) (hB : PlanarHalf Q 5 (triP Q b1)) (hT : PlanarHalf Q 1 (triP Q t1))
+    (hO : PlanarHalf Q 0 (triP Q o1)) (hL : PlanarHalf Q 2 (triP Q l1)) (hR : PlanarHalf Q 3 (triP Q r1))
+    (hrh : ∀ i < 8, 0 < tp Q i) :
+    reorient pts sim obs ceil = .ok Q.toList ∧ Canonical obs ceil Q := by
+  refine ⟨?_, canonical_of_clear hv hF hB hT hO hL hR hrh⟩
+  rw [T_C18_clear_view Q hs pts hp sim obs ceil f1 f2 b1 b2 t1 t2 o1 o2 l1 l2 r1 r2 hcut htris hview hv]
+  have h0 : tp Q 0 = det3 (Q.toList.getD 1 V3.zero - Q.toList.getD 0 V3.zero)
+      (Q.toList.getD 3 V3.zero - Q.toList.getD 0 V3.zero) (Q.toList.getD 4 V3.zero - Q.toList.getD 0 V3.zero) := rfl
+  have : ¬ det3 (Q.toList.getD 1 V3.zero - Q.toList.getD 0 V3.zero)
+      (Q.toList.getD 3 V3.zero - Q.toList.getD 0 V3.zero) (Q.toList.getD 4 V3.zero - Q.toList.getD 0 V3.zero) < 0 := by
+    rw [← h0]; exact not_lt.mpr (le_of_lt (hrh 0 (by decide)))
+  simp only [fixHand, this, if_false]
+
+/-- non-vacuity of the planarity hypothesis: the front half `(0,1,5)` of the unit cube (`k = 1/2`) -/
+example : PlanarHalf unitCube 4 (triP unitCube (0, 1, 5)) := ⟨1 / 2, by decide +kernel, by decide +kernel⟩
+
 /-- the request `c18.clear` is sound: when the decidable check accepts a witness (numbering `ql`, triangles by side),
     the model's `reorient` returns `fixHand ql` — so on every generated case that is answered `clear` the returned
     numbering is the one `T_C18_clear_view` names, independent of triangle order, diagonals and input numbering. -/
